@@ -345,7 +345,7 @@ theorem callSem_le (w : World) {h h' : Head} {args args' : List Den} {lams lams'
     obtain ⟨hr, rfl⟩ := hh
     simp only [callSem]
     split
-    · exact fnCall_le w m [] (.cons hr ha) hl .nil
+    · exact fnCall_le w m kwn (.cons hr ha) hl hk
     · intro env
       exact ELe.bind (hr env) (fun _ => ELe.bind (evalAll_le ha env)
         (fun _ => ELe.bind (evalAll_le hk env) (fun _ => ELe.refl _)))
